@@ -36,6 +36,22 @@ abbrev Rope := List Section
 def Rope.size (r : Rope) : Nat := (r.map (·.size)).sum
 def Rope.content (r : Rope) (file : Bytes) : Bytes := r.flatMap (·.avail file)
 
+/-- one header handed out by the bdb walker: the sections of an overflow chain,
+    or (fecbf23e) an item stored in the hash page itself -/
+inductive Hdr
+  | ov (r : Rope)
+  | inl (s : Section)
+  deriving Repr, DecidableEq
+
+def Hdr.size : Hdr → Nat
+  | .ov r => Rope.size r
+  | .inl s => s.size
+
+def Hdr.content (h : Hdr) (file : Bytes) : Bytes :=
+  match h with
+  | .ov r => Rope.content r file
+  | .inl s => s.avail file
+
 /-! ## Berkeley DB hash database -/
 namespace Bdb
 
@@ -117,32 +133,39 @@ def chainIterUnfixed (db : Db) (n : Nat) : Option (Nat × Bool) :=
   else if byteAt db.file (n * db.pageSz + 25) != 7 then some (n, false)   -- `continue`: n is unchanged
   else some (u32 db (n * db.pageSz + 16), true)
 
-/-- the items of one hash page: for every entry whose data item is an
-    off-page reference, walk its chain -/
-def items (db : Db) (pageOff : Nat) : List Nat → List Bool → List Rope → Option (List Rope × List Bool)
+/-- the items of one hash page, by (key offset, data offset) of the entry
+    pairs: a data item of type H_KEYDATA (1) that is at least 16 bytes long
+    (from the byte after its type up to its key's offset, the key inside the
+    page) is handed out as it lies in the page; for a data item that is an
+    off-page reference (3) the chain is walked -/
+def items (db : Db) (pageOff : Nat) : List (Nat × Nat) → List Bool → List Hdr → Option (List Hdr × List Bool)
   | [], vis, acc => some (acc, vis)
-  | dataOff :: rest, vis, acc =>
+  | (keyOff, dataOff) :: rest, vis, acc =>
     -- view := section of the page [dataOff, dataOff+12); peek one byte
     if dataOff ≥ db.pageSz || pageOff + dataOff ≥ db.file.length then none
+    else if byteAt db.file (pageOff + dataOff) == 1 then
+      if keyOff ≥ dataOff + 1 + 16 && keyOff ≤ db.pageSz then
+        items db pageOff rest vis (acc ++ [.inl ⟨pageOff + dataOff + 1, keyOff - dataOff - 1⟩])
+      else items db pageOff rest vis acc
     else if byteAt db.file (pageOff + dataOff) != 3 then items db pageOff rest vis acc
     else if dataOff + 12 > db.pageSz || pageOff + dataOff + 12 > db.file.length then none
     else
       match chain db (u32 db (pageOff + dataOff + 4)) vis [] with
       | none => none
-      | some (rope, vis') => items db pageOff rest vis' (acc ++ [rope])
+      | some (rope, vis') => items db pageOff rest vis' (acc ++ [.ov rope])
 
-/-- the `Data` offsets of the entry table of a hash page, or `none` when the
-    table runs past the page or the file -/
-def entryTable (db : Db) (pageOff : Nat) : Option (List Nat) :=
+/-- the (key, data) offsets of the entry table of a hash page, or `none` when
+    the table runs past the page or the file -/
+def entryTable (db : Db) (pageOff : Nat) : Option (List (Nat × Nat)) :=
   let entries := u16 db (pageOff + 20)
   if entries % 2 != 0 then none
   else
     let k := entries / 2
     if 26 + 4 * k > db.pageSz || pageOff + 26 + 4 * k > db.file.length then none
-    else some ((List.range k).map fun i => u16 db (pageOff + 26 + 4 * i + 2))
+    else some ((List.range k).map fun i => (u16 db (pageOff + 26 + 4 * i), u16 db (pageOff + 26 + 4 * i + 2)))
 
 /-- the loop over pages 0..LastPageNo of `AllHeaders` -/
-def pages (db : Db) (n : Nat) (vis : List Bool) (acc : List Rope) (hps : 0 < db.pageSz) : Option (List Rope) :=
+def pages (db : Db) (n : Nat) (vis : List Bool) (acc : List Hdr) (hps : 0 < db.pageSz) : Option (List Hdr) :=
   if n ≥ db.lastPageNo + 1 then some acc
   else if _hr : !pageReadable db n then none
   else
@@ -170,7 +193,7 @@ theorem pageSizeOK_pos (ps : Nat) (h : pageSizeOK ps = true) : 0 < ps := by
   omega
 
 /-- `Parse` then `AllHeaders` -/
-def allHeaders (file : Bytes) : Option (Option (List Rope)) :=
+def allHeaders (file : Bytes) : Option (Option (List Hdr)) :=
   match parse file with
   | none => none
   | some db =>
